@@ -14,7 +14,7 @@
    (false): (a) `raw[i] = x` / `raw.insert(i, x)` passed a negative `i` unnormalised to
    _notify_splice, (b) `raw[a:b] = xs` with b < a passed r.stop < r.start, (c) `view[a:b:k] = xs`
    read `_raw_indexes[slice_from_range(r)]`, which for the empty range(-1, -1, k) (k < 0, a < -len) is
-   the whole list reversed. *)
+   the whole list reversed, (d) assigning a whole wrapper left the cached views on the old one. *)
 From AB Require Import Prelude PySeq.
 
 (* an element of the raw list: its type tag (which Python class), and the parts of its content a
@@ -170,6 +170,15 @@ Definition raw_pop (s : st) (index : Z) : st * out :=
 (* claim_/unclaim_interleaving_comments: self._repeated.items[:] = items; self._notify()
    (which comments are found is the comment layer's business: any new list) *)
 Definition raw_reset (s : st) (its : list elem) : st * out := (notify (with_items s its), OkNone).
+
+(* repeated_node_property.__set__ / repeated_node_with_interleaving_comments_property.__set__:
+   `model.raw_xs = wrapper` (e.g. a deep copy of another model's field) after views were read.
+   The assigned wrapper becomes the model's raw list (`model.raw_xs is wrapper`).
+   Repaired (fixes/repeated-property-set-keeps-views.patch): the cached views built on the replaced
+   wrapper are forgotten and rebuilt (a later ORegister) on the new one at their next access.
+   As found: the model keeps serving the cached views, whose caches describe the replaced list. *)
+Definition raw_assign (s : st) (its : list elem) : st * out :=
+  if fx then (mkst its [], OkNone) else (mkst its (views s), OkNone).
 
 (* ===== RepeatedValueWrapper (a view) ========================================================== *)
 Definition from_raw (k : vkind) (e : elem) : elem :=
@@ -396,6 +405,7 @@ Inductive op :=
 | ORegister (tags : list Z) (k : vkind)
 | RSet (i : pyidx) (xs : list elem) | RDel (i : pyidx) | RInsert (i : Z) (x : elem) | RAppend (x : elem)
 | RClear | RExtend (xs : list elem) | RPop (i : Z) | RDropMany (ps : list Z) | RReset (its : list elem)
+| RAssign (its : list elem)
 | VLen (k : nat) | VIter (k : nat) | VGet (k : nat) (i : pyidx)
 | VSet (k : nat) (i : pyidx) (xs : list elem) | VDel (k : nat) (i : pyidx)
 | VInsert (k : nat) (i : Z) (x : elem) | VAppend (k : nat) (x : elem) | VClear (k : nat)
@@ -423,6 +433,7 @@ Definition step (s : st) (o : op) : st * out :=
   | RPop i => raw_pop s i
   | RDropMany ps => raw_drop_many s ps
   | RReset its => raw_reset s its
+  | RAssign its => raw_assign s its
   | VLen k => with_view s k (v_len s)
   | VIter k => with_view s k (v_iter s)
   | VGet k i => with_view s k (fun v => v_getitem s v i)
